@@ -467,6 +467,8 @@ package lib
 // representation invariant of the transport table: AddTransport never stores a nil transport
 //@   requires forall k pb.TransportType :: k in rm.registeredDecoys.transports ==> rm.registeredDecoys.transports[k] != nil
 //@   ensures @C11 @C12 @C10: result1 == nil ==> result0 != nil && fresh(result0) && result0.RegistrationSource == registrationSource && result0.Keys == conjureKeys
+// C07 "names a known ClientConf generation": no registration is built for a generation the station does not know
+//@   ensures @C07: (c2s.DecoyListGeneration == nil && !(0 in rm.PhantomSelector.Networks)) || (c2s.DecoyListGeneration != nil && !(*c2s.DecoyListGeneration in rm.PhantomSelector.Networks)) ==> result1 != nil
 //@   assigns now()
 //@   checks safety
 
